@@ -50,9 +50,76 @@ def client_part(res):
                        "first_differences": diffs[:3]}, found_input=False)
 
 
+def world_part(res):
+    """the whole daemon (real poll loop with a fake chronyd, real updater, real writer) started against a
+    chronyd that has not delivered a usable measurement yet: answers that are unsynchronised or stale,
+    PHC error bound readable or not, silences - then the first usable report.  Every record in the
+    segment before that report must carry status Unknown."""
+    import cfloat
+    from props import C01
+    rng = random.Random(res.seed * 7919 + 9)
+    ITV4 = cfloat.word(1 << 23, 4)
+    worlds = []
+    for _ in range(40 if res.tier == "quick" else 1500):
+        cfg = rng.choice([0x50484330, 0x50484330, -1])
+        t = rng.randrange(6, 5000) * NS + rng.randrange(NS)
+        items, valid = [], []
+        for k in range(rng.randrange(2, 8)):
+            refid = cfg if (cfg >= 0 and rng.random() < 0.8) else rng.randrange(2 ** 31)
+            phc = rng.choice([-1, 0, 40000, 12345])
+            kind = rng.random()
+            d = rng.choice([0, 1000, 10 ** 6])
+            if kind < 0.35:      # unsynchronised
+                it = ("P", t, 1, d, 0, phc, refid, 3, ITV4, 0, 0, 0, cfloat.encode(0.001), cfloat.encode(0.01), cfloat.encode(0.001))
+                ok = False
+            elif kind < 0.6:     # stale
+                age = 33 * NS + rng.randrange(50 * NS)
+                it = ("P", t, 1, d, 0, phc, refid, rng.randrange(3), ITV4, 0, age // NS, age % NS, cfloat.encode(0.001), cfloat.encode(0.01), cfloat.encode(0.001))
+                ok = False
+            elif kind < 0.75:    # silence
+                it = ("P", t, rng.choice([0, 2, 3]), d, 0, -1, refid, 0, ITV4, 0, 0, 0, 0, 0, 0)
+                ok = False
+            else:                # synchronised and fresh: usable unless the PHC is the reference and cannot be read
+                it = ("P", t, 1, d, 0, phc, refid, rng.randrange(3), ITV4, 0, 0, 0, cfloat.encode(0.001), cfloat.encode(0.01), cfloat.encode(0.001))
+                ok = not (cfg >= 0 and refid == cfg and phc < 0)
+            items.append(it)
+            valid.append(ok)
+            t += d + rng.choice([NS, NS + rng.randrange(NS), 3 * NS])
+        worlds.append((rng.choice([1000, 50000]), cfg, items, valid))
+    lines = [C01.line_of(w[0], w[1], w[2]) for w in worlds]
+    impl = c.run_lines_in_namespace(c.build_harness("debug")[0], lines, timeout=1500)
+    model = c.run_model(lines)
+    res.evaluations += len(lines)
+    res.count("gen:daemon started against a chronyd without a usable measurement", len(lines))
+    bad, diffs = [], []
+    for w, ln, i, m in zip(worlds, lines, impl, model):
+        res.nontriv(ln)
+        toks = [x for x in i.split() if not x.startswith("ORDER")]
+        if toks != m.split():
+            diffs.append({"case": ln, "impl": i, "model": m})
+        measured = False
+        for k, (ok, o) in enumerate(zip(w[3], toks)):
+            measured = measured or ok
+            if o.startswith("p:") and o.count(":") == 7:
+                st = int(o.split(":")[7])
+                if not measured and st != 0:
+                    bad.append({"case": ln, "impl": i, "model": m,
+                                "why": ["after poll iteration %d the segment carries status %d although chronyd has not delivered a usable measurement since the daemon started "
+                                        "(record %s)" % (k, st, o)]})
+                    break
+    res.oblige("correspondence:whole daemon started against a chronyd without a usable measurement vs composition of Poller/Updater models", not diffs)
+    if bad:
+        res.violation({"property": "C09", "kind": "history", "case": bad[0], "others": [b["case"][:200] for b in bad[1:4]],
+                       "predicate": "every record published before the first usable measurement has status Unknown",
+                       "how_to_replay": "./check C01 --replay <this file>"})
+    elif diffs:
+        res.violation({"property": "C09", "kind": "obligation", "obligation": "correspondence: daemon without a usable measurement", "first_differences": diffs[:2]}, found_input=False)
+
+
 def run(res, proofs_ok, proofs_why):
     _updater.run_property("C09", res, proofs_ok, proofs_why)
     client_part(res)
+    world_part(res)
 
 
 def replay(res, path):
